@@ -50,7 +50,7 @@ def run(tier):
             mismatch.append("SubCatchUp.tla violates %s (%s); the forced replay below decides for the code" % (r.violated, rp))
     vlib.log("[C12] TLC SubCatchUp: %d configurations, %d distinct states" % (len(cfgs), cov["states"]))
     # forced schedule (the counter-example of the as-found protocol) + free-running attaches on the real code
-    runs = [("1", 12 if tier == "quick" else 40), ("0", 10 if tier == "quick" else 60)]
+    runs = [("1", 12 if tier == "quick" else 40), ("2", 4 if tier == "quick" else 15), ("0", 10 if tier == "quick" else 60)]
     n_streams = 0
     for (forced, attempts) in runs:
         out = os.path.join(vlib.scratch(), "subrace.%s.ndjson" % forced)
@@ -61,6 +61,10 @@ def run(tier):
             d = json.loads(line)
             n_streams += 1
             why = judge_stream(d["out"])
+            if not why and d["mode"] == "inflight" and d.get("parked"):
+                ids = [e["id"] for e in d["out"] if e["k"] == "change"]
+                if len(ids) < 2 and not any(e["k"] in ("error", "closed", "client_error", "attach_error", "missed") for e in d["out"]):
+                    why = "the change in flight at attach time and the one after it were not both delivered (got %s) although the stream neither failed nor closed" % json.dumps(d["out"])
             if why:
                 rp = vlib.write_replay(PID, "stream", d)
                 if len(violations) < 5:
